@@ -11,8 +11,11 @@ ASSUME = [
     "modelled, not verified: broker/src/broker.rs handle_event + process_loop_result and broker/src/broker/{channel,"
     "service,object,conn_state,state}.rs, broker/src/bus_listener.rs as the abstract machine coq/Broker/Model.v (one "
     "atomic step per dequeued event; state without the Rust's redundant mirrors)",
-    "fresh cookies (Uuid::new_v4) and broker-side call serials (SerialMap::insert) are model inputs read off the "
-    "implementation's trace; theorems assume only that they are not in use",
+    "fresh cookies (Uuid::new_v4) are model inputs read off the implementation's trace; theorems assume only that "
+    "they are not in use.  Broker-side call serials are NOT inputs: SerialMap::insert is modelled (Broker/Model.v "
+    "sm_probe/sm_choice, text of the Rust function pinned by tools/rs2v_broker.py); the serial observed on the trace "
+    "is only compared with the model's choice (a difference is a C02 divergence); theorems assume that fewer than "
+    "2^32 calls are pending",
     "hash-map iteration order: the model iterates in key order; outputs are compared per connection as multisets "
     "(at ShutdownBroker only the Shutdown messages, the rest depends on that order and goes to connections being removed)",
     "payloads are opaque ids in the model (the harness maps them to byte strings); the Connection task's payload "
